@@ -18,6 +18,7 @@ import IocProofs.Lemmas.M2RefinesM1
 import Ioc.RegistrySkel
 import Ioc.Generated.Facts
 import IocProofs.Lemmas.SemRegistry
+import IocProofs.Lemmas.SemFactory
 namespace Ioc.C04
 open Ioc Ioc.Reg
 
@@ -289,5 +290,21 @@ theorem C04_code_GetSingletonOrCreateByFactory (early : Except Err Obj) (body : 
 example : Go.run (Sem.regPrims (.ok ⟨1, 5⟩) (fun r => (.error .fail, r))) Progs.reg_GetSingleton [.int 1, .bool true]
     ({ l3 := [1] } : Reg) = some (.tuple [.ref 1 5, .nil], { l2 := [(1, ⟨1, 5⟩)] }) :=
   (Sem.getSingleton_sem (.ok ⟨1, 5⟩) (fun r => (.error .fail, r)) { l3 := [1] } 1 true).trans (by rfl)
+
+/-- doGetComponent (container/factory/factory.go:140-162), regenerated, over the model registry: the lookup with early
+    references allowed; an object or an error ends it; otherwise GetSingletonOrCreateByFactory runs the creation between
+    `beginCreate` and `endCreate` -/
+theorem C04_code_doGetComponent (early : Except Err Obj) (create : Sem.Body) (r : Reg) (n : Nat) :
+    Go.run (Sem.facPrims early create) Progs.fac_doGetComponent [.int n] r = some (Sem.doGet r n early create) :=
+  Sem.doGetComponent_sem early create r n
+
+/-- … and that is exactly one operation `Act.getOrCreate` of the protocol model: the registry after the regenerated
+    doGetComponent — whose creation registers the early-reference factory when the name is in creation and then issues the
+    operations `body` — is the registry after `exec`.  So every theorem above about operation trees is a theorem about
+    what these regenerated functions do to the three cache levels. -/
+theorem C04_exec_is_code (r : Reg) (n : Nat) (early : Except Err Obj) (body : List Act) (res : Except Err Obj) :
+    ∃ out, Go.run (Sem.facPrims early (Sem.createOf n body res)) Progs.fac_doGetComponent [.int n] r = some out ∧
+      out.2 = (exec r (.getOrCreate n early body res)).1 :=
+  ⟨_, Sem.doGetComponent_sem early _ r n, Sem.doGet_is_exec r n early body res⟩
 
 end Ioc.C04
